@@ -1,6 +1,6 @@
 (* C11 -- close semantics and shared-handle lifecycle (mpmc part; the oneshot, broadcast
    and state-broadcast parts are in C11b.v). *)
-From FI Require Import Base Mpmc MpmcSpec MpmcProofs.
+From FI Require Import Base Mpmc MpmcSpec MpmcProofs MpmcCloseProofs.
 
 (* close() is permanent and idempotent: NewlyClosed exactly once. *)
 Theorem C11_close_status : forall s,
@@ -57,6 +57,16 @@ Theorem C11_last_receiver_clears : forall kr ks c s,
      o_val (snd (step s DropReceiverClear)) = vals_of V_DROPPED (buf s)).
 Proof. exact last_receiver_clears. Qed.
 
+(* The same on the observable trace of encoded operations (whole-call handle drops): whenever
+   a call closes the channel - close() reporting NewlyClosed, or the drop of the last sender /
+   last receiver handle reporting that it closed the channel - no send or receive future is
+   left pending without having been woken through the waker of its latest poll (trace monitor
+   [close_wakes_ok] of Model/MpmcSpec.v, which the check also evaluates on the real crate). *)
+Theorem C11_close_wakes_trace : forall kr ks c ls,
+  mlegal_run (init kr ks c) ls = true ->
+  close_wakes_ok kr ks (mtrace (init kr ks c) ls) = true.
+Proof. exact close_wakes_trace_holds. Qed.
+
 Example C11_witness :
   (* two sender handles: dropping one does not close, dropping the second does; a pending
      receive future outlives its handle and is woken by the implicit close *)
@@ -70,6 +80,7 @@ Print Assumptions C11_close_status.
 Print Assumptions C11_closed_monotone.
 Print Assumptions C11_send_after_close.
 Print Assumptions C11_close_wakes_all.
+Print Assumptions C11_close_wakes_trace.
 Print Assumptions C11_drain_then_none.
 Print Assumptions C11_implicit_close.
 Print Assumptions C11_last_receiver_clears.
